@@ -1116,7 +1116,14 @@ class ReplacingNodeVisitor(BaseNodeVisitor):
             parent_lines = decompile(node, starting_indentation=indent).splitlines()
         except NotImplementedError:
             return None
-        lines_to_add = [line + "\n" for line in parent_lines]
+        # the decompiler indents with spaces: give the lines the statement's own leading
+        # whitespace back (it may be made of tabs)
+        first_line = lines[current_statement.lineno - 1]
+        prefix = first_line[:indent]
+        lines_to_add = [
+            (prefix + line[indent:] if line.startswith(" " * indent) else line) + "\n"
+            for line in parent_lines
+        ]
         return Replacement(lines_to_remove, lines_to_add)
 
     def remove_node(
@@ -1131,8 +1138,9 @@ class ReplacingNodeVisitor(BaseNodeVisitor):
         lines_to_add = []
         if self._is_only_statement_in_block(current_statement):
             # removing the only statement of a block would leave an empty block
-            indent = analysis_lib.get_indentation(lines[current_statement.lineno - 1])
-            lines_to_add = ["{}pass\n".format(" " * indent)]
+            first_line = lines[current_statement.lineno - 1]
+            indent = analysis_lib.get_indentation(first_line)
+            lines_to_add = ["{}pass\n".format(first_line[:indent])]
         return Replacement(lines_to_remove, lines_to_add)
 
     def _is_only_statement_in_block(self, statement: ast.stmt) -> bool:
